@@ -155,6 +155,16 @@ func argVariants(t reflect.Type) []reflect.Value {
 			add(stk.And().Push("n"))
 			add(stk.Stack{})
 			add(stk.Cond("k", stk.Eq, "v"))
+			// Conditions that agree with an Init()-only one on the keyword
+			add(stk.Cond("", stk.Ne, "x"))
+			var ci, co stk.Condition
+			ci.Init()
+			co.Init()
+			co.SetOperator(stk.Eq)
+			add(ci)
+			add(co)
+			add(stk.Condition{})
+			add(stk.And().Push(stk.Cond("", stk.Ne, "x")))
 			add([]any{"AND", "a"})
 			add(testLogger)
 		} else {
@@ -217,26 +227,29 @@ func callVariants(mt reflect.Type, recvIn int) [][]reflect.Value {
 	}
 	var out [][]reflect.Value
 	seen := map[string]bool{}
-	addT := func(t []reflect.Value) {
-		key := ""
-		for _, v := range t {
-			if v.IsValid() {
-				key += fmt.Sprintf("|%v", v)
-			} else {
-				key += "|<none>"
-			}
+	// tuples are told apart by the positions of their variants (printing the
+	// values would merge distinct values that print alike, e.g. empty Conditions)
+	typIdx := make([]int, n)
+	for i := range per {
+		if len(per[i]) > 1 {
+			typIdx[i] = 1
 		}
+	}
+	addT := func(t []reflect.Value, idx []int) {
+		key := fmt.Sprint(idx)
 		if !seen[key] {
 			seen[key] = true
 			out = append(out, append([]reflect.Value{}, t...))
 		}
 	}
-	addT(typ)
+	addT(typ, typIdx)
 	for i := range per {
-		for _, v := range per[i] {
+		for j, v := range per[i] {
 			t := append([]reflect.Value{}, typ...)
 			t[i] = v
-			addT(t)
+			idx := append([]int{}, typIdx...)
+			idx[i] = j
+			addT(t, idx)
 		}
 	}
 	return out
@@ -286,6 +299,12 @@ func reflRecv(name string) (recv any, isStack bool) {
 		inner := stk.Or().Push("x", "y").SetValidityPolicy(rej)
 		return mk(stk.And()).Push(inner).SetValidityPolicy(rej).SetPushPolicy(func(...any) error { return nil }).
 			SetPresentationPolicy(func(...any) string { return "P" }), true
+	case "encap-window":
+		// encapsulation schemes given as windows onto one caller-owned table:
+		// the spare capacity behind each is the caller's (and the neighbour's) memory
+		tbl := []string{"<", ">", "[", "]", "{", "}"}
+		inner := stk.Or().Push("x", "y").SetEncap(tbl[1:2])
+		return mk(stk.And().SetEncap(tbl[:1]).SetEncap(tbl[2:4])).Push(inner, stk.Cond("k", stk.Eq, "v").SetEncap(tbl[4:5])), true
 	case "cond":
 		return stk.Cond("kw", stk.Ne, "val").SetID("c").SetEncap(`'`), false
 	case "cond-stack":
@@ -300,7 +319,7 @@ func reflRecv(name string) (recv any, isStack bool) {
 
 var otherHandleParent stk.Stack
 
-var reflStackRecvs = []string{"and", "or-sym", "not", "list", "basic", "fifo-mutex", "empty", "policies"}
+var reflStackRecvs = []string{"and", "or-sym", "not", "list", "basic", "fifo-mutex", "empty", "policies", "encap-window"}
 var reflCondRecvs = []string{"cond", "cond-stack", "cond-init"}
 
 func isZeroVal(v reflect.Value) bool {
